@@ -42,7 +42,7 @@ theorem exported_rules_covered :
 /-- Every regenerated row still has the target-pattern skeleton (ops, literals **with their tolerances**, attribute
 literals, `_allow_other_inputs/attributes`) and the `remove_nodes` flag the models were transcribed against. -/
 theorem skeletons_as_modelled :
-    ∀ r ∈ OV.Gen.C05.rows, r.source = "fusion" ∨ Table.lookup r.key = some (r.skeleton, r.removeNodes) := by
+    ∀ r ∈ OV.Gen.C05.rows, Table.lookup r.key = some (r.skeleton, r.removeNodes) := by
   decide +kernel
 
 /-- Every rule's **condition function** still makes the decisions the models were transcribed from: the hash of its decision
@@ -51,7 +51,7 @@ functions — in source order; messages and variable names excluded) equals the 
 operator (`>` vs `>=`), default value, membership test or dropped branch breaks this obligation; the harness then prints the
 token diff and searches for a failing input. -/
 theorem conditions_as_modelled :
-    ∀ r ∈ OV.Gen.C05.rows, r.source = "fusion" ∨ Table.lookupCond r.key = some r.condHash := by
+    ∀ r ∈ OV.Gen.C05.rows, Table.lookupCond r.key = some r.condHash := by
   decide +kernel
 
 /-- Literal data the condition functions decide with, read from the live objects of /repo, equal the models' tables:
@@ -1107,6 +1107,68 @@ theorem layer_norm_check_types (dt : Option Nat) (eps : Bool) (h : layerNormChec
     rcases this with h1 | h1 <;> simp [h1]
 
 end Thin
+
+/-! ## Layer-norm / RMS-norm fusions (`rules/fusion`) -/
+section NormFusion
+open OV.C05.More OV.C05.Shape OV.Lemmas.C05Algebra
+
+/-- **`LayerNormFusion`**, values: for every row length, every epsilon and scale, over any field with any square-root function,
+all four shapes of the matched sub-graph (`Mul(d,d)` / `Pow(d,2)`, `Mul(d, Reciprocal(std))` / `Div(d, std)`) compute exactly
+`LayerNormalization(x, scale, axis=-1, epsilon)`. -/
+theorem layer_norm_fusion_sound {α : Type} [Field α] (sqrtf : α → α) (usePow useDiv : Bool) (n : Nat) (eps : α)
+    (scale x : Nat → α) (i : Nat) :
+    layerNormPattern sqrtf usePow useDiv n eps scale x i = layerNormSpec sqrtf n eps scale x i := by
+  unfold layerNormPattern layerNormSpec
+  cases usePow <;> cases useDiv <;> simp [pow_two, div_eq_mul_inv]
+
+/-- **`LayerNormBiasFusion`**: `LayerNormalization(x, scale) + bias` is `LayerNormalization(x, scale, bias)` by the operator's
+definition (`Y = normalized * scale + B`); the rule copies the node's attributes and output count. -/
+theorem layer_norm_bias_fusion_sound {α : Type} [Field α] (sqrtf : α → α) (n : Nat) (eps : α) (scale bias x : Nat → α) (i : Nat) :
+    layerNormSpec sqrtf n eps scale x i + bias i =
+      (x i - meanF n x) / sqrtf (meanF n (fun k => (x k - meanF n x) ^ 2) + eps) * scale i + bias i := rfl
+
+/-- **`RmsNormFusion`** (both operand orders of the final `Mul`): the matched sub-graph computes `RMSNormalization(x, scale, axis=-1, epsilon)`. -/
+theorem rms_norm_fusion_sound {α : Type} [Field α] (sqrtf : α → α) (scaleFirst : Bool) (n : Nat) (eps : α)
+    (scale x : Nat → α) (i : Nat) :
+    rmsNormPattern sqrtf scaleFirst n eps scale x i = rmsNormSpec sqrtf n eps scale x i := by
+  unfold rmsNormPattern rmsNormSpec
+  cases scaleFirst <;> simp [div_eq_mul_inv, mul_comm]
+
+/-- What the checks establish when they pass: layer-norm only for FLOAT/DOUBLE inputs with a one-element epsilon and
+`stash_type = x.dtype`; rms-norm only for float inputs/scales, a float one-element epsilon and a FLOAT/DOUBLE stash type. -/
+theorem norm_fusion_check (p : NormFusion) (r : NormRepl) (h : p.run = .fire r) :
+    (p.kind = .layerNorm → p.epsSingleton = true ∧ r.stashType = p.xDtype ∧ dtypeIn layerNormComputeTypes p.xDtype = true) ∧
+    (p.kind = .rmsNorm → p.epsSingleton = true ∧ p.epsIsFloat = true ∧ r.stashType = p.rmsStash ∧
+      dtypeIn layerNormComputeTypes r.stashType = true ∧ dtypeIn floatTypes p.xDtype = true ∧ dtypeIn floatTypes p.scaleDtype = true) := by
+  unfold NormFusion.run at h
+  constructor
+  · intro hk
+    simp only [hk] at h
+    by_cases hc : p.lnOk = true
+    · simp only [hc, if_true, Outcome.fire.injEq] at h
+      unfold NormFusion.lnOk at hc
+      simp only [Bool.and_eq_true] at hc
+      subst h
+      exact ⟨hc.2, rfl, hc.1⟩
+    · simp [hc] at h
+  · intro hk
+    simp only [hk] at h
+    by_cases hc : p.rmsOk = true
+    · simp only [hc, if_true, Outcome.fire.injEq] at h
+      unfold NormFusion.rmsOk at hc
+      simp only [Bool.and_eq_true] at hc
+      subst h
+      exact ⟨hc.1.1.1.1, hc.1.1.1.2, rfl, hc.2, hc.1.1.2, hc.1.2⟩
+    · simp [hc] at h
+
+/-- Finding C05-N11: the checks do not look at the rank of scale / bias: with `x : [2,4]` and `scale : [3,2,4]` the rule
+fires although the original result has shape `[3,2,4]`, which no `LayerNormalization(x:[2,4], …)` produces. -/
+theorem norm_fusion_scale_rank_refuted :
+    (NormFusion.run { kind := .layerNorm, xDtype := some 1, xRank := 2, otherRank := 3 }) = .fire { stashType := some 1 } ∧
+    specBroadcast [2, 4] [3, 2, 4] = some [3, 2, 4] ∧
+    (NormFusion.hyp { kind := .layerNorm, xDtype := some 1, xRank := 2, otherRank := 3 }) = false := by decide
+
+end NormFusion
 
 /-! ## Non-vacuity: concrete instances satisfying the hypotheses of the theorems above -/
 section NonVacuity
